@@ -1588,8 +1588,9 @@ func (inv *Invoker) Acquire() {
 func (inv *Invoker) acquire(usePool bool) {
 	if !inv.isCompiled {
 		inv.child = inv.vm
+		return
 	}
-	if inv.child != nil {
+	if inv.child != nil || inv.vm == nil {
 		return
 	}
 	inv.child = inv.vm.pool.acquire(
@@ -1612,16 +1613,22 @@ func (inv *Invoker) Release() {
 
 // Invoke invokes the callee object with the given arguments.
 func (inv *Invoker) Invoke(args ...Object) (Object, error) {
+	if !inv.isCompiled {
+		if inv.vm != nil && inv.vm.Aborted() {
+			return Undefined, ErrVMAborted
+		}
+		return inv.invokeObject(inv.callee, args...)
+	}
+	if inv.vm == nil {
+		return Undefined, ErrNotCallable.NewError("compiled function needs a VM")
+	}
 	if inv.child == nil {
 		inv.acquire(false)
 	}
 	if inv.child.Aborted() {
 		return Undefined, ErrVMAborted
 	}
-	if inv.isCompiled {
-		return inv.child.Run(inv.vm.globals, args...)
-	}
-	return inv.invokeObject(inv.callee, args...)
+	return inv.child.Run(inv.vm.globals, args...)
 }
 
 func (inv *Invoker) invokeObject(callee Object, args ...Object) (Object, error) {
